@@ -851,7 +851,6 @@ fn bit_of(i: usize) -> u64 {
 }
 pub struct BitIter {
     bits: u64,
-    next: u32,
 }
 const fn ids() -> [usize; 64] {
     let mut a = [0usize; 64];
@@ -866,15 +865,14 @@ const fn ids() -> [usize; 64] {
 static IDS: [usize; 64] = ids();
 impl Iterator for BitIter {
     type Item = &'static usize;
+    /// loop-free: lowest set bit first (ascending ids, the authorizer id last, as in a BTreeSet)
     fn next(&mut self) -> Option<&'static usize> {
-        while self.next < 64 {
-            let n = self.next;
-            self.next += 1;
-            if self.bits & (1u64 << n) != 0 {
-                return Some(&IDS[n as usize]);
-            }
+        if self.bits == 0 {
+            return None;
         }
-        None
+        let n = self.bits.trailing_zeros() as usize;
+        self.bits &= self.bits - 1;
+        Some(&IDS[n & 63])
     }
 }
 pub struct BitUnion {
@@ -882,7 +880,7 @@ pub struct BitUnion {
 }
 impl BitUnion {
     pub fn cloned(self) -> std::iter::Cloned<BitIter> {
-        BitIter { bits: self.bits, next: 0 }.cloned()
+        BitIter { bits: self.bits }.cloned()
     }
 }
 impl BitSet {
@@ -911,7 +909,7 @@ impl BitSet {
         self.bits == 0
     }
     pub fn iter(&self) -> BitIter {
-        BitIter { bits: self.bits, next: 0 }
+        BitIter { bits: self.bits }
     }
 }
 impl Extend<usize> for BitSet {
